@@ -2426,7 +2426,7 @@ class Signature(object):
 
         der_signature = ''
         hash_type = SIGHASH_ALL
-        if len(signature) > 64 and signature.startswith(b'\x30'):
+        if len(signature) != 64 and signature.startswith(b'\x30'):
             der_signature = signature[:-1]
             hash_type = int.from_bytes(signature[-1:], 'big')
             signature = convert_der_sig(signature[:-1], as_hex=False)
